@@ -918,9 +918,10 @@ type c03Commit struct {
 
 type c03Case struct {
 	Idx     int         `json:"idx"`
-	Base    []c03Commit `json:"base"`    // commits on main before the branch point
-	Branch  []c03Commit `json:"branch"`  // commits on the pr branch
-	Advance []c03Commit `json:"advance"` // commits made on main after the branch point
+	Base    []c03Commit `json:"base"`             // commits on main before the branch point
+	Branch  []c03Commit `json:"branch"`           // commits on the pr branch
+	Advance []c03Commit `json:"advance"`          // commits made on main after the branch point
+	Copies  bool        `json:"copies,omitempty"` // built by the identical-copies stratum (c03copies.go)
 }
 
 func c03GenCase(r *rand.Rand, idx int) c03Case {
